@@ -10,12 +10,21 @@ ap = argparse.ArgumentParser()
 ap.add_argument('--file'); ap.add_argument('--old'); ap.add_argument('--new'); ap.add_argument('--patch')
 ap.add_argument('--count', type=int, default=1)
 ap.add_argument('--tests', action='store_true'); ap.add_argument('--tier', default='quick')
+ap.add_argument('--demo', help='demo program: run in the scratch copy (as seeded/1/demo.py) before and after the change')
 ap.add_argument('props', nargs='*')
 a = ap.parse_args()
 V = os.path.dirname(os.path.dirname(os.path.abspath(__file__)))
 d = tempfile.mkdtemp(prefix='pydl_mut_')
 try:
     subprocess.run(['rsync', '-a', '--exclude', '.git', '--exclude', '__pycache__', '/repo/', d + '/'], check=True)
+    def run_demo(tag):
+        if a.demo:
+            os.makedirs(os.path.join(d, 'seeded', '1'), exist_ok=True)
+            shutil.copy(a.demo, os.path.join(d, 'seeded', '1', 'demo.py'))
+            r = subprocess.run(['/venv/bin/python', 'seeded/1/demo.py'], cwd=d, capture_output=True, text=True, timeout=900)
+            out = (r.stdout.strip().splitlines() or ['?'])[-1]
+            print('DEMO (%s): exit=%d %s' % (tag, r.returncode, out[:160]))
+    run_demo('clean')
     if a.patch:
         r = subprocess.run(['patch', '-p1', '-s', '-i', os.path.abspath(a.patch)], cwd=d)
         if r.returncode:
@@ -26,6 +35,7 @@ try:
         if s.count(a.old) != a.count:
             sys.exit('old text occurs %d times, expected %d' % (s.count(a.old), a.count))
         open(p, 'w').write(s.replace(a.old, a.new))
+    run_demo('changed')
     if a.tests:
         r = subprocess.run(['/venv/bin/python', '-m', 'pytest', '-q', '-p', 'no:cacheprovider', '--timeout=900', '--color=no'],
                            cwd=d, capture_output=True, text=True)
